@@ -555,10 +555,21 @@ func (w *World) checkProperty(id, tier string, seed int, t0 time.Time, writeEvid
 		for k := range pr.inlined {
 			tb = append(tb, "inlined (no own contract): "+k)
 		}
+		axs := map[string]bool{}
+		for _, c := range pr.ctxs {
+			for _, a := range c.axiomsUsed {
+				axs[a] = true
+			}
+		}
+		for a := range axs {
+			tb = append(tb, "axiom (definitional, assumed): "+a)
+		}
 		sort.Strings(tb)
 		tb = append(tb, "go/packages, go/types, go/ssa (x/tools v0.29.0) front end; govc SSA-to-SMT translation; z3 4.8.12 / z3 5.1.0 / cvc5 1.0.3",
 			"type invariants assumed for inputs: integer ranges of their Go types, 0<=len<=cap<=2^48 for slices/strings, references below the allocation frontier",
-			"contents of error values and formatted strings are abstract (nil-ness and identity of package-level sentinel errors only)")
+			"contents of error values and formatted strings are abstract (nil-ness and identity of package-level sentinel errors only)",
+			"machine arithmetic is not treated as mathematical: int mode uses mathematical integers with an explicit wrap-around per operation and range facts per type, bv mode 64-bit vectors; shifts by a symbolic amount in int mode are uninterpreted; floating point is outside the subset",
+			"no goroutines, channels, select, unsafe or reflection in the verified subset; termination only where a decreases clause is listed")
 		sort.Strings(notClaimed)
 		if len(samples) == 0 {
 			samples = append(samples, map[string]interface{}{"note": "no obligation discharged"})
